@@ -376,8 +376,15 @@ func (e *Engine) step(p *partition, row map[string]any, ts, seq int64) []map[str
 
 	// 1. 推进现有 run（含未界完成：mr 不属于但 run 已可接受）。
 	for _, r := range p.runs {
-		if !e.withinOk(r, ts) || r.nrows > e.maxRunRows {
-			continue // 超期/超长：丢弃
+		if !e.withinOk(r, ts) {
+			if hasAccept(r.states) {
+				// Only the extension falls outside WITHIN; the rows matched so far are a match.
+				completions = append(completions, r)
+			}
+			continue
+		}
+		if r.nrows > e.maxRunRows {
+			continue // 超长：丢弃
 		}
 		succ := e.advance(r, row)
 		if len(succ) == 0 {
